@@ -23,6 +23,7 @@ def run(prop, tier):
     if tier == "thorough":
         jobs.append(dict(src=SRC, args=["tls", "-p", 2, "--", 3]))
     jobs.append(dict(src=SRC, args=["foreign", "-p", p]))
+    jobs.append(dict(src=SRC, args=["shutdown", "-p", p]))
     for a in ("sync", "sim"):       # the handshake and the reference counter sit on the selected atomic/spinlock model
         jobs.append(dict(src=SRC, atomic=a, args=["join", "-p", p, "--", "7"]))
         jobs.append(dict(src=SRC, atomic=a, args=["refs", "-p", p, "--", "d", "U", "s"]))
